@@ -51,6 +51,10 @@ def run_op(RaggedArray, p, c):
         src = p["src"]
         if src == "ragged":
             a = mk_ragged(RaggedArray, c["data"], c["lens"])
+            if p.get("pre") == "rowrev":
+                a = a[::-1]                      # a lazily selected operand (windows are then relative to the *selected* rows)
+            elif p.get("pre") == "rowlist":
+                a = a[list(range(len(c["lens"]) - 1, -1, -1))]
         elif src == "1d":
             a = arr(c["data"], "int64")
         else:
@@ -108,7 +112,7 @@ def sym(E, p, kf):
         c["starts"] = [E.int(f"s{i}", 0, p["L"]) for i in range(K)] if pres[0] else None
         c["ends"] = [E.int(f"e{i}", -p["L"], p["L"] + 1) for i in range(K)] if pres[1] else None
         for i in range(K):
-            n = specs.I(c["lens"][i])
+            n = specs.I(c["lens"][K - 1 - i] if p.get("pre") else c["lens"][i])
             if c["starts"] is not None:
                 E.assume(c["starts"][i] <= n)
             if c["ends"] is not None:
@@ -212,6 +216,8 @@ def sym(E, p, kf):
             bases = [z3.IntVal(0)] * K
         else:
             bases, _ = specs.prefix_starts(lens)
+        if p.get("pre"):
+            lens, bases = lens[::-1], bases[::-1]
         D = specs.store_of(c["data"])
         firsts, counts = [], []
         for i in range(K):
@@ -277,6 +283,8 @@ def conc(case):
             rows = [list(c["data"]) for _ in c["lens"]]
         else:
             rows = common.rows_of(c["data"], c["lens"])
+        if p.get("pre"):
+            rows = rows[::-1]
         out = []
         for i, r in enumerate(rows):
             s = c["starts"][i] if c["starts"] is not None else 0
@@ -304,7 +312,8 @@ def jobs(tier, seed):
     for x, y in (("ragged", "ragged"), ("ragged", "scalar")):      # a scalar x is not "of the operands' shape": outside the claim
         out.append(dict(base, op="where", x=x, y=y))
     out += [dict(base, op="subset"), dict(base, op="maskindex")]
-    out += [dict(base, op="rslice", src="ragged"), dict(base, op="rslice", src="1d"), dict(base, op="rslice", src="2d")]
+    out += [dict(base, op="rslice", src="ragged"), dict(base, op="rslice", src="1d"), dict(base, op="rslice", src="2d"),
+            dict(base, op="rslice", src="ragged", pre="rowrev", R=2 if q else 3), dict(base, op="rslice", src="ragged", pre="rowlist", R=2 if q else 3)]
     return [dict(h="C08.struct", p=p) for p in out]
 
 
